@@ -15,6 +15,25 @@ CHECKS = {
         note="Trusted: cvc5/z3, TensorFlow's tracer, the FTZ/DAZ platform model and Tanh/Sigmoid contract stubs (validated against the "
              "real kernels on every run). Outside: subnormal inputs, non-power-of-two constant scales, configurations not in the lattice.",
         ref="DESIGN.md section 3 C01"),
+    "C02": dict(
+        level="model_checking", engine="tfg2smt",
+        technique="bounded SMT (QF_BVFP, cvc5) over the traced quantizer graph: nearest-code, fixed-point and two-copy monotonicity queries",
+        text="Per configuration three families of solver queries over the traced graph: the output is an in-range code within half a grid "
+             "step of a harness-side surrogate (or the end code beyond the range); every in-range code is a fixed point; and for two "
+             "symbolic inputs x<=y the outputs are ordered.  All float32 inputs below 2^24 steps are covered per configuration.",
+        note="Trusted as C01.  'Nearest' carries a tolerance of step*2^-12 for the float rounding of the surrogate; monotonicity is "
+             "claimed for linear/ReLU/hard-tanh/hard-sigmoid formats only (the real tanh/sigmoid kernels are measurably not monotone).",
+        ref="DESIGN.md section 3 C02"),
+    "C03": dict(
+        level="model_checking", engine="tfg2smt",
+        technique="bounded SMT (QF_BVFP, cvc5) over the traced po2 graphs with validated Log/Pow contract stubs; bit-level oracle on the output pattern",
+        text="Per configuration the solver decides for every float32 input of the exactness region that the output bit pattern is "
+             "sign|exponent|zero-mantissa with the exponent equal to the clamped log2-nearest (or floor) exponent derived from the input's "
+             "own exponent and mantissa fields; idempotence over all admissible powers of two; tie windows and floor-mode powers of two "
+             "are enumerated exhaustively on the real code.",
+        note="Trusted: Log/Pow kernel contracts (validated against the real kernels on every run, 10^4..10^6 points), FTZ/DAZ model. "
+             "Regions where the straight-through residual is inexact are queried separately and listed as known findings.",
+        ref="DESIGN.md section 3 C03"),
 }
 
 NOT_YET = "check not built yet in this revision (see DESIGN.md section 7 build order)"
